@@ -82,7 +82,7 @@ def permutations(tier, seed, **opts):
 
 
 def catalogue(tier, seed, **opts):
-    """fixed topology outside the random generator: two dividend-paying firms and one capitalist sector (known finding F8: the recipient of
+    """fixed topology outside the random generator: two dividend-paying firms and one capitalist sector (finding F8, repaired in 338f859: the recipient of
     the second firm's dividend is found by scanning the country's sectors for a DIV variable, which the first firm itself has by then)"""
     import C01
     r = Result('the two-dividend-payers topology of dyn/C01.py under 3 fixed permutations of the declarations')
